@@ -64,6 +64,18 @@ def compare(mod, c: Case):
     return None
 
 
+def safe_oracle(mod, c: Case):
+    """The property oracle; an exception escaping the real code inside it is itself a failing observation."""
+    try:
+        return mod.oracle(c)
+    except Exception as e:
+        import traceback as tb
+        where = tb.extract_tb(e.__traceback__)[-1]
+        return [Failure("oracle", getattr(mod, "PROP", "?"),
+                        f"the implementation raised {type(e).__name__}: {e} (at {where.filename}:{where.lineno}) while the oracle drove it",
+                        f"oracle-exception:{type(e).__name__}")]
+
+
 def shrink(mod, c: Case, pred) -> Case:
     """Greedy line removal while `pred(case)` still holds (bounded effort)."""
     lines = list(c.lines)
@@ -118,7 +130,7 @@ def replay(prop: str, path: str) -> int:
     c = Case(cj.get("suite", "replay"), cj["lines"], None, cj.get("meta", {}))
     exec_cases(mod, [c])
     d = compare(mod, c)
-    fails = mod.oracle(c)
+    fails = safe_oracle(mod, c)
     for i, l in enumerate(c.lines):
         mark = "  <-- model differs: " + c.model_out[i] if d == i else ""
         print(f"{l}\n   impl: {c.impl_out[i]}{mark}")
@@ -170,7 +182,7 @@ def main() -> int:
                                          f"model and implementation differ at op {d} of a {c.suite} case: "
                                          f"`{c.lines[d]}` impl=`{c.impl_out[d][:300]}` model=`{c.model_out[d][:300]}`",
                                          "correspondence:" + c.suite, c, {"op": d}))
-            for f in mod.oracle(c):
+            for f in safe_oracle(mod, c):
                 k = known_match(prop, f, known)
                 if k is not None:
                     known_hits.setdefault(k["signature"], k)
@@ -219,10 +231,10 @@ def main() -> int:
     if oracle_fail:
         f = oracle_fail[0]
         try:
-            small = shrink(mod, f.case, lambda cc_: any(x.signature == f.signature for x in mod.oracle(cc_)))
+            small = shrink(mod, f.case, lambda cc_: any(x.signature == f.signature for x in safe_oracle(mod, cc_)))
         except Exception:
             small = f.case
-        fs = [x for x in mod.oracle(small) if x.signature == f.signature] or [f]
+        fs = [x for x in safe_oracle(mod, small) if x.signature == f.signature] or [f]
         path = core.write_replay(prop, {
             "property": prop, "kind": "failing-input", "what": fs[0].what, "signature": f.signature,
             "case": small.to_json(), "impl_out": small.impl_out, "model_out": small.model_out,
